@@ -373,8 +373,16 @@ func (cs *Contracts) parseLines(lines []string, lineNos []int, file, pkgPath str
 					return errf("bad loop ordinal")
 				}
 				c.Loop = k
+				if f[2] == "iteration" && len(f) > 4 && f[3] == "ensures" {
+					// loop k iteration ensures E: E holds at the end of every iteration (at every back edge), stated
+					// over the variables of that iteration and the calls made in it
+					c.Kind = "iterensures"
+					idx := strings.Index(l, "iteration ensures")
+					rest = strings.TrimSpace(l[idx+len("iteration ensures"):])
+					break
+				}
 				if f[2] != "invariant" && f[2] != "decreases" {
-					return errf("loop clause must be invariant or decreases")
+					return errf("loop clause must be invariant, decreases or iteration ensures")
 				}
 				c.Kind = f[2]
 				idx := strings.Index(l, f[2])
@@ -464,7 +472,7 @@ func (cs *Contracts) parseLines(lines []string, lineNos []int, file, pkgPath str
 				c.Exprs[i] = substLets(c.Exprs[i], cur.Lets)
 			}
 			k := c.Kind
-			if c.Kind == "invariant" || c.Kind == "decreases" {
+			if c.Kind == "invariant" || c.Kind == "decreases" || c.Kind == "iterensures" {
 				k = fmt.Sprintf("loop%d-%s", c.Loop, c.Kind)
 			}
 			if c.Kind == "atcall" {
